@@ -7,6 +7,11 @@ import SolverzModel.Driver.Util
 namespace Solverz.Drv.C12
 open Solverz Solverz.Drv
 
+/-- `np.spacing(x)` for finite x ≥ 0 -/
+def spacing (x : Float) : Float :=
+  let a := x.abs
+  if a.isNaN || a.isInf then 0.0/0.0 else Float.ofBits (a.toBits + 1) - a
+
 def showGrid (r : Except Err (List Float)) : String :=
   match r with
   | .error e => "err " ++ toString e
@@ -21,7 +26,7 @@ def step (ws : List String) : String :=
   | ["fdae", a, b, c] =>
     match parseFloat a, parseFloat b, parseFloat c with
     | some t0, some tend, some dt =>
-      showGrid (fdaeGrid floatO t0 tend dt (Float.ofBits 0x3CB0000000000000) (1.0 + 1e-9))
+      showGrid (fdaeGridK floatO spacing t0 tend dt (Float.ofBits 0x3CB0000000000000) 1e-9)
     | _, _, _ => "bad-op"
   | _ => "bad-op"
 
